@@ -187,6 +187,27 @@ def crystal_recipe(rng):
     return None
 
 
+def _rays_cross_once(w, margin=0.02):
+    """w: (rays, radii) values of weight - 0.5 along each ray, radii increasing.  True when every ray reads
+    inside ... inside, a single band of values within `margin` of the level through which w falls, outside ... outside.
+    Anything else (a second band, a band re-entered, a rise inside the band) is a second crossing or a grazing ray."""
+    import numpy as np
+    for row in w:
+        sgn = np.where(row > margin, 1, np.where(row < -margin, -1, 0))
+        if sgn[0] != 1 or sgn[-1] != -1:
+            return False
+        first_not_in = int(np.argmax(sgn != 1))
+        last_not_out = len(sgn) - 1 - int(np.argmax(sgn[::-1] != -1))
+        band = slice(first_not_in, last_not_out + 1)
+        if first_not_in <= last_not_out:
+            if np.any(sgn[band] != 0):
+                return False
+            vals = row[max(first_not_in - 1, 0):last_not_out + 2]
+            if np.any(np.diff(vals) > 1e-4):
+                return False
+    return True
+
+
 def _star_shaped(cr, kind, lmax):
     """Is every surface the crystal entry point describes star-shaped about its centre - exactly one crossing of w = 0.5 along
     every direction of the transform grid within the search bounds?  Where a ray crosses the level more than once the radial
@@ -213,16 +234,34 @@ def _star_shaped(cr, kind, lmax):
         if len(ne) == 0:
             return False
         sw = StockholderWeight.from_arrays(ie, ip, np.asarray(ne), np.asarray(npos, dtype=float))
-        rr = np.linspace(max(lo, 1e-3), hi, 96)
+        rr = np.linspace(max(lo, 1e-3), hi, 192)
         pts = (c[None, None, :] + rr[None, :, None] * g[:, None, :]).reshape(-1, 3)
         w = np.asarray(sw.weights(pts.astype(np.float32)), dtype=float).reshape(len(g), len(rr)) - 0.5
         # a margin around the level: values within 0.02 of it count as touching (a grazing ray is as bad as a second crossing)
-        sgn = np.where(w > 0.02, 1, np.where(w < -0.02, -1, 0))
-        for row in sgn:
-            nz = row[row != 0]
-            changes = int(np.sum(nz[1:] != nz[:-1]))
-            if changes != 1 or nz[0] != 1:
-                return False
+        if not _rays_cross_once(w):
+            return False
+    return True
+
+
+def _atoms_star_shaped(els, pos, lmax, radius=6.0, background=1e-5):
+    """The same question for the atoms of an isolated molecule (Molecule.atomic_shape_descriptors: bounds 0.2 .. 3 vdW radii)."""
+    import numpy as np
+    from chmpy.shape import SHT
+    from chmpy import StockholderWeight
+    from chmpy.core.element import Element
+    x, y, z = SHT(lmax).grid_cartesian
+    g = np.c_[x.ravel(), y.ravel(), z.ravel()].astype(float)
+    dist = np.linalg.norm(pos[:, None, :] - pos[None, :, :], axis=2)
+    for n in range(len(els)):
+        idx = np.where((dist[n] < radius) & (dist[n] > 1e-3))[0]
+        if len(idx) == 0:
+            continue
+        sw = StockholderWeight.from_arrays(els[n:n + 1], pos[n:n + 1], els[idx], pos[idx], background=background)
+        rr = np.linspace(0.2, Element[int(els[n])].vdw_radius * 3, 256)
+        pts = (pos[n][None, None, :] + rr[None, :, None] * g[:, None, :]).reshape(-1, 3)
+        w = np.asarray(sw.weights(pts.astype(np.float32)), dtype=float).reshape(len(g), len(rr)) - 0.5
+        if not _rays_cross_once(w):
+            return False
     return True
 
 
@@ -303,6 +342,13 @@ def drive(rec):
         t["poses"].append(ps)
         if ref is None:
             break
+    t["star"] = True
+    if rec["kind"] == "mol-atomic" and ref is not None and any(ps["exc"] == "" and ps["rows"] != t["poses"][0]["rows"] for ps in t["poses"][1:]):
+        # an observation for TLC's domain guard: is every atom's surface met exactly once by every ray of the transform grid?
+        try:
+            t["star"] = bool(_atoms_star_shaped(*arrays(base["inner"]), rec["lmax"]))
+        except Exception:
+            t["star"] = False
     if ref is not None and rec["kind"] != "mol-atomic":
         try:
             t["radial"], field, o, g, iso = radial_samples(rec, base)
